@@ -71,9 +71,13 @@ def remap_curie_prefixes(converter: Converter, remapping: Mapping[str, str]) -> 
                 new_prefix,
                 new_record,
             )
-        elif old in intersection:
+        elif old in intersection and any(
+            key in converter.synonym_to_prefix for key, value in remapping.items() if value == old
+        ):
+            # ``old`` is handed over to the record of an applicable remapping onto it,
+            # so it's dropped here, but the previous canonical prefix is kept
             record.prefix_synonyms = sorted(
-                set(record.prefix_synonyms).difference({old, new_prefix})
+                set(record.prefix_synonyms).union({record.prefix}).difference({old, new_prefix})
             )
             record.prefix = new_prefix
         else:
